@@ -79,7 +79,7 @@ enum {
 struct Cfg {
     std::string tier = "quick";
     uint64_t seed = 1;
-    int workers = 12;
+    int workers = 16;
     int perDoc = -1;
     bool mutations = true;
     std::string docs;
